@@ -341,6 +341,7 @@ def execute(case, res):
     dc = w.dc
     guards = w.guards
     indexed = []      # IndexedData objects (kept alive)
+    parent_of, changed, keepalive = {}, set(), []     # the harness's own record (no private attribute of IndexedData is read)
     bufs = {}         # index buffers that are reused (filled anew in place)
     nreads = [0]
     last_view_read = {}
@@ -511,6 +512,8 @@ def execute(case, res):
             if all(i is None for i in idx):
                 idx[-1] = 0
             x = IndexedData(d, tuple(idx))
+            parent_of[id(x)] = d
+            keepalive.append(x)       # ids stay unique
             if op[1] % 2 == 0:
                 x.register_to_hub(w.hub)     # half of them live outside any hub
             indexed.append(x)
@@ -519,20 +522,20 @@ def execute(case, res):
             if not indexed:
                 continue
             x = indexed[op[1] % len(indexed)]
-            par = x._original_data
+            par = parent_of[id(x)]
             new = tuple(None if i is None else v % n if v >= 0 else max(v, -n) for i, v, n in zip(x.indices, op[2], par.shape))
             if any(i is not None and i < 0 for i in new):
                 res.probe('indexed_negative_index')
             x.indices = new
-            x._changed = True
+            changed.add(id(x))
         elif k == 'cmp_indexed':
             if not indexed:
                 continue
             x = indexed[op[1] % len(indexed)]
-            par = x._original_data
+            par = parent_of[id(x)]
             sl = tuple(slice(None) if i is None else i for i in x.indices)
             what = op[2]
-            if getattr(x, '_changed', False):
+            if id(x) in changed:
                 res.probe('indexed_after_index_change')
             if id(par) in updated_parents:
                 res.probe('indexed_after_parent_update')
